@@ -131,6 +131,8 @@ def run(model, rep, tier):
                qual='GFCrystalcalc.' + m)
     # ---- SetRates is memoryless: G depends on the current rates only
     memoryless_setters(model, rep, [('GFcalc', 'GFCrystalcalc', 'SetRates')])
+    from ._common import scale_free_tests
+    scale_free_tests(model, rep, [('GFcalc', 'GFCrystalcalc', 'SetRates')])
     from ._common import inverse_map_placed
     inverse_map_placed(model, rep, [('GFcalc', 'GFCrystalcalc', '__init__', 'invmap')])
     # any early-return guard in the calculator compares every argument the skipped body reads (none exists today)
@@ -169,6 +171,12 @@ BREAKERS = [
     (G, "        self.symmrate = self.SymmRates(pre, betaene, preT, betaeneT)\n", "        if getattr(self, 'lastpre', None) is pre: return\n        self.lastpre = pre\n        self.symmrate = self.SymmRates(pre, betaene, preT, betaeneT)\n",
      'memo-key-complete'),
 ]
+BREAKERS += [
+    (G, "        self.invmap = np.zeros(self.N, dtype=int)\n        for ind, w in enumerate(sitelist):\n            for i in w:\n                self.invmap[i] = ind",
+     "        self.invmap = np.array([ind for ind, w in enumerate(sitelist) for i in w], dtype=int)", 'inverse-map-placed'),
+]
 NEUTRALS = [
+    (G, "        self.invmap = np.zeros(self.N, dtype=int)\n        for ind, w in enumerate(sitelist):\n            for i in w:\n                self.invmap[i] = ind",
+     "        invmap = np.zeros(self.N, dtype=int)\n        for ind, w in enumerate(sitelist):\n            for i in w:\n                invmap[i] = ind\n        self.invmap = invmap"),
     (G, "np.sqrt(pre[w0] * pre[w1])", "np.sqrt(pre[w1] * pre[w0])"),
 ]
